@@ -434,7 +434,11 @@ class Interp(ExprMixin, StmtMixin):
         for label, clause in c.ensures.items():
             if c.hide == "*" or label in c.hide:
                 continue
-            st.assume(as_bool(self.spec_eval_in(clause, env2, heap_before, eff_before)))
+            cl = as_bool(self.spec_eval_in(clause, env2, heap_before, eff_before))
+            if z3.is_false(z3.simplify(cl)):
+                # vacuity guard: assuming it would make every later obligation of the caller trivially true
+                raise Unsupported("ensures %s of %s evaluates to False at the call site (line %d): not revealed" % (label, c.target, line))
+            st.assume(cl)
         return result
 
     def spec_eval_in(self, clause, env, heap_before=None, eff_before=None):
@@ -862,10 +866,10 @@ class Interp(ExprMixin, StmtMixin):
         if clause is None:
             # recorded so that a function all of whose paths raise allowed exceptions still has (trivial) obligations
             self.oblige("raises:allowed:%s@%d" % (name, r.line), z3.BoolVal(True), r.line, clause="%s is permitted by the contract" % name)
-        if clause is not None:
-            g = as_bool(self.spec_eval(clause, dict(self.entry_env)))
-            self.oblige("raises:%s@%d" % (name, r.line), g, r.line, clause=clause)
         env = dict(self.entry_env)
         env.update({"L_" + k: v for k, v in st.env.items()})
+        if clause is not None:
+            g = as_bool(self.spec_eval(clause, env, clean=True))
+            self.oblige("raises:%s@%d" % (name, r.line), g, r.line, clause=clause)
         for label, cl in c.ensures_exc.items():
             self.oblige(label, as_bool(self.spec_eval(cl, env, clean=True)), r.line, clause=cl)
